@@ -6,6 +6,9 @@ import (
 	"fmt"
 	"math/rand"
 	"net"
+	"os"
+	"path/filepath"
+	"sort"
 	"strconv"
 	"strings"
 	"sync"
@@ -224,14 +227,11 @@ func c19AcctExec(c *core.Ctx, k c19AcctCase) {
 	fail := func(key, what string) { c.Disagree("C19/corr/acct/"+key, what, k) }
 	// compare every user's counters with the model and with the oracle sums
 	checkMetrics := func(step int, op c19AcctOp, actor int) bool {
+		// the direct oracle first (independent of the model), then the model
+		reals := make([]string, len(names))
 		for ui, name := range names {
 			real, uv, dv, reg := c19AcctMetrics(name)
-			model := c.Model.Ask("acct-metrics %s", name)
-			c.Compared()
-			if real != model {
-				fail("metrics", fmt.Sprintf("op %d (%s): user %d counters: impl %q, model %q", step, op.K, ui, real, model))
-				return false
-			}
+			reals[ui] = real
 			if !reg {
 				uv, dv = 0, 0
 			}
@@ -248,6 +248,14 @@ func c19AcctExec(c *core.Ctx, k c19AcctCase) {
 				return false
 			}
 		}
+		for ui, name := range names {
+			model := c.Model.Ask("acct-metrics %s", name)
+			c.Compared()
+			if reals[ui] != model {
+				fail("metrics", fmt.Sprintf("op %d (%s): user %d counters: impl %q, model %q", step, op.K, ui, reals[ui], model))
+				return false
+			}
+		}
 		return true
 	}
 	for step, op := range k.Ops {
@@ -260,7 +268,7 @@ func c19AcctExec(c *core.Ctx, k c19AcctCase) {
 			}
 			x = sess[op.I]
 		}
-		var evs, view string // impl-side rendering of the model's reply
+		var evs, m string // impl-side rendering of the events; the model's reply
 		actor := -1
 		switch op.K {
 		case "sess":
@@ -314,7 +322,6 @@ func c19AcctExec(c *core.Ctx, k c19AcctCase) {
 			default:
 				evs = fmt.Sprintf("lost(consumed=%v)", consumed)
 			}
-			view = c19AcctView(after)
 			// quota oracle, independent of the model: all traffic of this case is fresh
 			if op.Open && before.State == 1 {
 				u := k.Users[x.user]
@@ -336,12 +343,7 @@ func c19AcctExec(c *core.Ctx, k c19AcctCase) {
 					c.Violate("C19/quota/session/no-quota-refused", fmt.Sprintf("op %d: user %d has no quota and its new session was refused", step, x.user), k)
 				}
 			}
-			m := c.Model.Ask("acct-input %d %s %d %s %d", op.I, names[x.user], b2i(op.Open), core.Hex(payload), now)
-			c.Compared()
-			if m != "ok "+evs+" "+view {
-				fail("input", fmt.Sprintf("op %d input(open=%v, %d bytes) on session %d: impl %q, model %q", step, op.Open, op.N, op.I, "ok "+evs+" "+view, m))
-				return
-			}
+			m = c.Model.Ask("acct-input %d %s %d %s %d", op.I, names[x.user], b2i(op.Open), core.Hex(payload), now)
 		case "read":
 			actor = x.user
 			buf := make([]byte, op.N)
@@ -360,13 +362,7 @@ func c19AcctExec(c *core.Ctx, k c19AcctCase) {
 				return
 			}
 			evs = fmt.Sprintf("read:%d:%d:%d", op.I, n, c19Checksum(buf[:n]))
-			view = c19AcctView(x.s.VerifAcctView())
-			m := c.Model.Ask("acct-read %d %d %d", op.I, op.N, now)
-			c.Compared()
-			if m != "ok "+evs+" "+view {
-				fail("read", fmt.Sprintf("op %d Read(%d) on session %d: impl %q, model %q", step, op.N, op.I, "ok "+evs+" "+view, m))
-				return
-			}
+			m = c.Model.Ask("acct-read %d %d %d", op.I, op.N, now)
 		case "write":
 			actor = x.user
 			buf := make([]byte, op.N)
@@ -385,50 +381,47 @@ func c19AcctExec(c *core.Ctx, k c19AcctCase) {
 			if x.refused && n > 0 {
 				c.Violate("C19/quota/session/refused-session-accepts-data", fmt.Sprintf("op %d: Write on a session refused for quota accepted %d bytes", step, n), k)
 			}
-			if x.sink.failAfter > 0 {
-				// let the output loop flush what was accepted; if the connection fails meanwhile the output
-				// loop closes the session: wait for that, so that the next operation sees a settled session
-				for i := 0; i < 5000; i++ {
-					v := x.s.VerifAcctView()
-					if v.Closed && v.State == 3 || (v.SendQueue == 0 && !x.sink.failed()) {
-						break
-					}
-					time.Sleep(time.Millisecond)
-				}
-			}
 			evs = fmt.Sprintf("write:%d:%d", op.I, n)
-			m := c.Model.Ask("acct-write %d %d %d %d", op.I, op.N, okChunks, now)
-			c.Compared()
-			v := x.s.VerifAcctView()
-			if x.sink.failAfter > 0 && v.Closed && v.Status != 1 && !x.envClosed {
+			m = c.Model.Ask("acct-write %d %d %d %d", op.I, op.N, okChunks, now)
+		case "close":
+			actor = x.user
+			x.s.Close()
+			x.envClosed = true
+			evs = "-"
+			m = c.Model.Ask("acct-close %d", op.I)
+		default:
+			continue
+		}
+		c.Compared()
+		if !strings.HasPrefix(m, "ok "+evs+" ") {
+			fail(op.K, fmt.Sprintf("op %d %s(n=%d, open=%v) on session %d: impl %q, model %q", step, op.K, op.N, op.Open, op.I, "ok "+evs, m))
+			return
+		}
+		if x.sink.failAfter > 0 {
+			// let the output loop flush what was queued; if the connection fails meanwhile the output loop
+			// closes the session: wait for that, so that the next operation sees a settled session
+			for i := 0; i < 5000; i++ {
+				v := x.s.VerifAcctView()
+				if v.Closed && v.State == 3 || (v.SendQueue == 0 && !x.sink.failed()) {
+					break
+				}
+				time.Sleep(time.Millisecond)
+			}
+			if v := x.s.VerifAcctView(); v.Closed && v.Status != 1 && !x.envClosed {
+				// environment event: the underlay failed and its output loop closed the session
 				x.envClosed = true
-				// environment event: the underlay failed and closed the session
+				c.Hist("acct_env", "connection-failed-session-closed")
 				if r := c.Model.Ask("acct-close %d", op.I); !strings.HasPrefix(r, "ok ") {
 					fail("close", r)
 					return
 				}
 			}
-			view = c19AcctView(v)
-			if !strings.HasPrefix(m, "ok "+evs+" ") {
-				fail("write", fmt.Sprintf("op %d Write(%d) on session %d: impl %q (err %v), model %q", step, op.N, op.I, "ok "+evs, err, m))
-				return
-			}
-			if mv := c.Model.Ask("acct-view %d", op.I); mv != "ok "+view {
-				fail("write-view", fmt.Sprintf("op %d after Write(%d): impl %q, model %q", step, op.N, "ok "+view, mv))
-				return
-			}
-		case "close":
-			actor = x.user
-			x.s.Close()
-			view = c19AcctView(x.s.VerifAcctView())
-			m := c.Model.Ask("acct-close %d", op.I)
-			c.Compared()
-			if m != "ok - "+view {
-				fail("close", fmt.Sprintf("op %d Close on session %d: impl %q, model %q", step, op.I, "ok - "+view, m))
-				return
-			}
-		default:
-			continue
+		}
+		view := c19AcctView(x.s.VerifAcctView())
+		c.Compared()
+		if mv := c.Model.Ask("acct-view %d", op.I); mv != "ok "+view {
+			fail(op.K+"-view", fmt.Sprintf("op %d after %s(n=%d, open=%v) on session %d: impl %q, model %q", step, op.K, op.N, op.Open, op.I, "ok "+view, mv))
+			return
 		}
 		if !checkMetrics(step, op, actor) {
 			return
@@ -745,9 +738,21 @@ func init() {
 	core.RegisterExtra("C19", func(c *core.Ctx) {
 		c.Correspondence("acct-*: real server sessions (Session.input / Read / Write / Close, metric registration, checkQuota in inputData) operation by operation vs Mieru.Acct.step; acct-readloop exhaustively on small domains")
 		c19AcctPure(c)
-		cases := c19AcctBoundary()
-		for _, k := range cases {
+		var cases []c19AcctCase
+		if files, _ := filepath.Glob(filepath.Join(c.Corpus, "acct-*.json")); len(files) > 0 {
+			sort.Strings(files)
+			for _, f := range files {
+				raw, err := os.ReadFile(f)
+				var k c19AcctCase
+				if err == nil && json.Unmarshal(raw, &k) == nil && k.Kind == "acct" {
+					cases = append(cases, k)
+				}
+			}
+			c.Note("acct corpus cases: %d", len(cases))
+		}
+		for _, k := range c19AcctBoundary() {
 			c.Hist("acct_boundary", k.Class)
+			cases = append(cases, k)
 		}
 		for i := 0; i < c.N(40, 600); i++ {
 			cases = append(cases, c19AcctRandom(c))
